@@ -288,9 +288,12 @@ fn stalled(args: &Args, path: &str) -> i32 {
                 let rec = slot_to_rec(&slot[..real::SLOT_HDR + n]);
                 let file = format!("{}/{}-hang-{}-{}.json", dir, args.id, std::process::id(), s);
                 std::fs::write(&file, vlib::engine::replay_json(&args.id, &format!("{}/non-termination", args.id), "the call did not return within 30 s in a fresh process (4-5 orders of magnitude above the normal cost)", &rec)).unwrap();
-                if args.id == "C01" {
+                // a call that never returns violates C01 (terminates), C12 (the scanner stops
+                // at the first out-of-class byte or at the end) and C20 (time bounded by a
+                // constant times the length) alike
+                if matches!(args.id.as_str(), "C01" | "C12" | "C20") {
                     println!("VIOLATION property={} replay={}", args.id, file);
-                    println!("  signature: C01/non-termination");
+                    println!("  signature: {}/non-termination", args.id);
                     println!("  input: {}", vlib::engine::show_bytes(&rec.buf, 120));
                     code = 1;
                 } else {
@@ -400,7 +403,7 @@ fn worker(prop: &props::PropDef, args: &Args) -> i32 {
         }
     }));
     let finished = std::sync::Arc::new(std::sync::atomic::AtomicBool::new(false));
-    if matches!(prop.id, "C01" | "C20") {
+    if matches!(prop.id, "C01" | "C12" | "C20") {
         // stall monitor: no case finishing anywhere for STALL seconds = a call does not return
         let fin = finished.clone();
         let stall = vlib::engine::env_u64("VERIF_STALL_S", 15);
